@@ -57,7 +57,7 @@ def make_graph(rng, root):
     inc = {n: [] for n in names}
     order = names[:]
     for i, n in enumerate(order):
-        decl[n] = "v_" + "".join(ch if ch.isalnum() else "_" for ch in n)
+        decl[n] = "v_" + "".join(ch if (ch.isascii() and ch.isalnum()) else "_" for ch in n) + "_%d" % i
         # includes only later files (acyclic)
         later = order[i + 1:]
         if later:
